@@ -655,7 +655,20 @@ class Prefix:
         name: Optional[str] = None,
         symbol: Optional[str] = None,
     ) -> None:
+        if name and self._by_name.get(name, self) is not self:
+            raise ValueError(f"A prefix named {name} is already defined")
+        if symbol and self._by_symbol.get(symbol, self) is not self:
+            raise ValueError(f"A prefix with symbol {symbol} is already defined")
+
         if self._initialized:
+            # the same prefix may have been produced anonymously by arithmetic before
+            # it is declared with a name and symbol
+            if name and not self.name:
+                self.name = name
+                self._by_name[name] = self
+            if symbol and not self.symbol:
+                self.symbol = symbol
+                self._by_symbol[symbol] = self
             return
 
         self.base = base
